@@ -19,6 +19,17 @@ CHECKS = {
              "iterations past the special cases; parameters at 2 rational points.",
         design="DESIGN.md section 4 C01",
     ),
+    "C04": dict(
+        technique="property-based testing: generated recurrence matrices of controlled Jordan structure, exact matrix iteration as oracle, differential between both solvers",
+        text="Generated-input search over recurrence systems built directly as Recurrences objects (dimension 1-5; diagonal, triangular, "
+             "nilpotent, companion matrices of prescribed rational/irrational/complex root multisets, similarity transforms, parametric entries, "
+             "inhomogeneous parts, symbolic initial values) under the default and forced-cyclic solver and the numeric-root options; every component "
+             "of the closed form is compared with A^n v for n=0..2*dim+4; exactness flag checked both ways as stated in DESIGN. "
+             "Exploration: the property quantifies over all matrices and n.",
+        note=TRUSTED + " Oracle: Fraction matrix iteration. Non-rational closed forms (radicals, CRootOf) are compared numerically with adaptive precision "
+             "(agreement of two working precisions, 1e-40). Rounded results are judged against the entrywise growth bound only for eps<=1e-10. dim<=5.",
+        design="DESIGN.md section 4 C04",
+    ),
 }
 
 PENDING = {}
